@@ -147,7 +147,29 @@ def sk_siblings_in_wrapper(g):
     return {"classes": classes, "page": page, "page_ctx": {}}
 
 
-SKELETONS = [sk_siblings_in_wrapper, sk_default_in_foreign_context, sk_forwarding, sk_same_name_three_levels, sk_root_chain, sk_slot_in_loop, sk_default_passed_on, sk_sibling_fills]
+def sk_looped_fills_shadow_outer_loop(g):
+    """a component tag inside {% for v %} whose fills are produced by a loop over the SAME variable name: the fill content
+    and a pass-through {% slot name=v %} inside it use the loop between tag and fill (the nearer one), never the enclosing one"""
+    rng = g.rng
+    v = f"v{g.newsite()}"
+    outer_items = rng.choice(["xy", "ab", "ba", "c"])
+    inner_items = rng.choice(["ab", "abc", "bc"])
+    box = [_t(g)] + [["slot", ["lit", ch], {}, [_t(g)], {}] for ch in "abc"]
+    passthrough = ["slot", ["var", v], {}, [_t(g)], {}]
+    fill = ["fill", ["var", v], [_t(g), ["var", v]], None, None]
+    tag = ["comp", "c1", {}, ["fills", [["for", v, inner_items, g.newsite(), [fill]]]]]
+    classes = {"c1": {"template": box, "data": {}, "inject": []}}
+    if rng.random() < 0.6:
+        # written in the template of another component, so that the fill can pass that component's own slots through
+        fill[2].append(passthrough)
+        host = [_t(g), ["for", v, outer_items, g.newsite(), [tag]]]
+        classes = {"c0": {"template": host, "data": {}, "inject": []}, **classes}
+        use = ["comp", "c0", {}, ["fills", [["fill", ["lit", ch], [_t(g)], None, None] for ch in rng.sample("abc", rng.randint(1, 3))]]]
+        return {"classes": classes, "page": [use], "page_ctx": {}}
+    return {"classes": classes, "page": [["for", v, outer_items, g.newsite(), [tag]]], "page_ctx": {}}
+
+
+SKELETONS = [sk_looped_fills_shadow_outer_loop, sk_siblings_in_wrapper, sk_default_in_foreign_context, sk_forwarding, sk_same_name_three_levels, sk_root_chain, sk_slot_in_loop, sk_default_passed_on, sk_sibling_fills]
 
 
 def decorate(g, prog):
